@@ -1,6 +1,8 @@
 # U3: World, its guards, ResourceId, checked / unchecked downcasts
 W = "src/world/mod.rs"
 RD = "src/world/res_downcast/mod.rs"
+EN = "src/world/entry.rs"
+SU = "src/world/setup.rs"
 WI = r"^impl World$"
 DR = r"^impl dyn Resource$"
 KEYFIX = "broadcast use axiom_resource_id_key_model;"
@@ -11,6 +13,7 @@ TYPE_RULES = [
     (r"\bAtomicRef::map\(\s*([^,]+?)\s*,\s*Box::as_ref\s*\)", r"vx_map_as_ref(\1)"),
     (r"\bAtomicRefMut::map\(\s*([^,]+?)\s*,\s*Box::as_mut\s*\)", r"vx_map_as_mut(\1)"),
     (r"\bBox::new\(r\)", "vx_box_res(r)"),
+    (r"\bBox::new\(f\(\)\)", "vx_box_res_of(f())"),
     (r"\bunsafe\s*\{", "{"),
     (r"\bunsafe\s+fn\b", "fn"),
 ]
@@ -22,6 +25,7 @@ def deref_inner(m):   # auto-deref of the guard in `self.inner.<method of dyn Re
 
 UNIT = dict(
     name="u3_world",
+    crate_attrs=["#![feature(allocator_api)]"],
     prelude=["prelude.rs"],
     contracts=["world.vspec"],
     lib=[],
@@ -39,6 +43,10 @@ UNIT = dict(
         dict(key="Fetch", file=W, kind="struct", name="Fetch", rules=PUBF, erase_lifetimes=False),
         dict(key="FetchMut", file=W, kind="struct", name="FetchMut", rules=PUBF, erase_lifetimes=False),
         dict(key="World", file=W, kind="struct", name="World", rules=PUBF, erase_lifetimes=False),
+        dict(key="StdEntry", file=EN, kind="type", name="StdEntry", erase_lifetimes=False),
+        dict(key="Entry", file=EN, kind="struct", name="Entry", rules=PUBF, erase_lifetimes=False),
+        dict(key="DefaultProvider", file=SU, kind="struct", name="DefaultProvider", erase_lifetimes=False),
+        dict(key="PanicHandler", file=SU, kind="struct", name="PanicHandler", erase_lifetimes=False),
         dict(text=open(__file__.replace("unit.py", "lib.rs")).read()),
         dict(key="DynRes::downcast", file=RD, kind="fn", name="downcast", owner=DR, emit_owner="impl DynRes", erase_lifetimes=False),
         dict(key="DynRes::downcast_unchecked", file=RD, kind="fn", name="downcast_unchecked", owner=DR, emit_owner="impl DynRes", erase_lifetimes=False,
@@ -73,5 +81,13 @@ UNIT = dict(
         dict(key="World::fetch", groups=["P"], file=W, kind="fn", name="fetch", owner=WI, emit_owner="impl World", erase_lifetimes=False, drop_where=False),
         dict(key="World::fetch_mut", groups=["P"], file=W, kind="fn", name="fetch_mut", owner=WI, emit_owner="impl World", erase_lifetimes=False, drop_where=False),
         dict(key="World::try_fetch_internal", file=W, kind="fn", name="try_fetch_internal", owner=WI, emit_owner="impl World", erase_lifetimes=False),
+        dict(key="create_entry", file=EN, kind="fn", name="create_entry", erase_lifetimes=False, groups=["typed"]),
+        dict(key="World::entry", file=W, kind="fn", name="entry", owner=WI, emit_owner="impl World", erase_lifetimes=False, drop_where=False, groups=["typed"]),
+        dict(key="Entry::or_insert", file=EN, kind="fn", name="or_insert", owner=r"impl < 'a , T > Entry", emit_owner="impl<'a, T: Resource + 'a> Entry<'a, T>", erase_lifetimes=False, groups=["typed"]),
+        dict(key="Entry::or_insert_with", file=EN, kind="fn", name="or_insert_with", owner=r"impl < 'a , T > Entry", emit_owner="impl<'a, T: Resource + 'a> Entry<'a, T>", erase_lifetimes=False, drop_where=False, groups=["P"]),
+        dict(key="SetupHandler::setup", file=SU, kind="fn", name="setup", owner=r"^trait SetupHandler", emit_owner="pub trait SetupHandler<T>: Sized", erase_lifetimes=False),
+        dict(key="DefaultProvider::setup", file=SU, kind="fn", name="setup", owner=r"SetupHandler < T > for DefaultProvider", emit_owner="impl<T: Default + Resource> SetupHandler<T> for DefaultProvider", erase_lifetimes=False, groups=["P"]),
+        dict(key="PanicHandler::setup", file=SU, kind="fn", name="setup", owner=r"SetupHandler < T > for PanicHandler", emit_owner="impl<T: Resource> SetupHandler<T> for PanicHandler", erase_lifetimes=False, groups=["typed"],
+             sig_rules=[(r"\(\s*_\s*:", "(world:")]),
     ],
 )
